@@ -494,10 +494,79 @@ fn part_cli(args: &Args, rep: &Reporter) -> J {
     json!({"families": fam_json, "cli_runs": runs.load(Ordering::Relaxed), "accepted_and_all_outputs_compared": accepted.load(Ordering::Relaxed), "files_compared_bytewise": files_cmp.load(Ordering::Relaxed)})
 }
 
+/// The same graphs through the bundler-loader protocol (real ABI, worker subprocess): the root's module must hold
+/// exactly the root's definitions plus the reference closure, whichever way the host supplies the files the task
+/// asks for (all per round / one per round / asking twice before supplying one).
+fn part_loader(args: &Args, rep: &Reporter) -> J {
+    let f = Family { layout: 0, name: "loader:n3-lines<=2", n: 3, max_lines: 2, min_lines: 0, spells: vec![0], targets: vec![0, 1, 5], allow_missing: true, fragsets: vec![vec![0, 0, 0], vec![0, 1, 2], vec![2, 2, 0]] };
+    let alpha = line_alphabet(&f);
+    let a = alpha.len();
+    let mut cases: Vec<Case> = vec![];
+    for len in f.min_lines..=f.max_lines {
+        for code in 0..a.pow(len as u32) {
+            let mut x = code;
+            let lines: Vec<Line> = (0..len).map(|_| { let l = alpha[x % a]; x /= a; l }).collect();
+            for fs in &f.fragsets {
+                cases.push(Case { n: f.n, frags: fs.clone(), lines: lines.clone(), layout: f.layout });
+            }
+        }
+    }
+    let pool = crate::worker::Pool::new("c12-loader", args.threads);
+    let asked = AtomicU64::new(0);
+    let emitted = AtomicU64::new(0);
+    par_for(cases.len(), args.threads, |ci| {
+        let c = &cases[ci];
+        if matches!(catch(|| check_case(c)), Ok(Ok("skipped:wildcard-mix"))) {
+            return;
+        }
+        let files: Vec<J> = (0..c.n).map(|i| json!([fpath(c, i), file_text(c, i)])).collect();
+        for strategy in 0..3u64 {
+            asked.fetch_add(1, Ordering::Relaxed);
+            let case = |extra: J| { let mut j = case_json(c); j["part"] = json!("loader"); j["strategy"] = json!(strategy); j["detail"] = extra; j };
+            let answer = pool.ask(ci, &json!({"text": "", "files": files, "strategy": strategy}));
+            let v = match answer {
+                crate::worker::Answer::Done(v) => v,
+                crate::worker::Answer::Died { panic, status } => {
+                    rep.report(Violation { key: "loader.trap".into(), what: format!("the loader died: {panic:?} {status}"), case: case(json!({})) });
+                    continue;
+                }
+            };
+            match (reference(c, 0), v["js"].as_str()) {
+                (RefOut::Ok(want), Some(js)) => {
+                    emitted.fetch_add(1, Ordering::Relaxed);
+                    let Ok(consts) = crate::c12::const_documents(js) else {
+                        rep.report(Violation { key: "loader.unreadable_module".into(), what: "cannot read the emitted module".into(), case: case(json!({"js": js})) });
+                        continue;
+                    };
+                    // one constant per definition of the resolved document: compare the multiset of definition names
+                    let mut have: BTreeMap<String, usize> = BTreeMap::new();
+                    for (_, doc, _) in &consts {
+                        let first = &doc["definitions"][0];
+                        let kind = if first["kind"] == "FragmentDefinition" { "frag" } else { "op" };
+                        *have.entry(format!("{kind}:{}", first["name"]["value"].as_str().unwrap_or(""))).or_insert(0) += 1;
+                    }
+                    let mut wanted: BTreeMap<String, usize> = BTreeMap::new();
+                    for ((_, name), n) in &want {
+                        *wanted.entry(name.clone()).or_insert(0) += n;
+                    }
+                    if have != wanted {
+                        rep.report(Violation { key: format!("loader.definitions_differ[strategy{strategy}:{}]", shape_tags(c, 0)), what: format!("the root's module holds {have:?}, the reference closure {wanted:?}"), case: case(json!({"js": js})) });
+                    }
+                }
+                (RefOut::Ok(_), None) => rep.report(Violation { key: format!("loader.fails_on_resolvable_imports[strategy{strategy}:{}]", shape_tags(c, 0)), what: format!("every import resolves, but the loader fails: {}", v["error"]), case: case(json!({})) }),
+                (RefOut::Err(_), Some(js)) => rep.report(Violation { key: format!("loader.accepts_dangling_import[strategy{strategy}]"), what: "an import names a missing file or an undefined fragment, but the loader emits a module".into(), case: case(json!({"js": js})) }),
+                (RefOut::Err(_), None) => {}
+            }
+        }
+    });
+    json!({"family": f.name, "graphs": cases.len(), "supply_strategies": 3, "loader_runs": asked.load(Ordering::Relaxed), "modules_compared_with_the_reference_closure": emitted.load(Ordering::Relaxed)})
+}
+
 fn inner(args: &Args) -> i32 {
     let rep = Reporter::new("C13", &args.tier);
     crate::util::install_hook();
     let cli_part = part_cli(args, &rep);
+    let loader_part = part_loader(args, &rep);
     let cases = AtomicU64::new(0);
     let cyclic = AtomicU64::new(0);
     let outcomes: Mutex<BTreeMap<String, u64>> = Mutex::new(BTreeMap::new());
@@ -573,6 +642,7 @@ fn inner(args: &Args) -> i32 {
         "families": fam_json,
         "graphs_with_cycles": cyclic.load(Ordering::Relaxed),
         "through_the_cli": cli_part,
+        "through_the_loader": loader_part,
         "outcomes": *outcomes.lock().unwrap(),
         "samples": [case_json(&sample)],
     });
